@@ -190,11 +190,14 @@ fn judge_wilson_value(n: usize, k: usize, kind: Kind, level: f64, o: &Obs, case:
                     report("upper one-sided finite end is not the lower root", l);
                 }
             } else {
-                l.count("wilson:one-sided-level<1/2 (finite end judged as 'a root')");
-                let (ok, d) = is_root(o.lo);
+                // z is the (negative) quantile at L: centre - z*halfspan is then the *upper* root. This
+                // signed reading is the only one under which intervals nest in the level (C10).
+                l.count("wilson:one-sided-level<1/2 (signed quantile: finite end is the opposite root)");
+                let (ok, _) = is_root(o.lo);
+                let d = (o.lo - ru).abs();
                 l.max("wilson_root_abs_err", d);
-                if !ok {
-                    report("one-sided finite end (level < 1/2) is not a root of the score equation", l);
+                if !ok || !(d <= tol) {
+                    report("one-sided finite end at a level below 1/2 is not the root on the side given by the signed quantile", l);
                 }
             }
         }
@@ -209,11 +212,12 @@ fn judge_wilson_value(n: usize, k: usize, kind: Kind, level: f64, o: &Obs, case:
                     report("lower one-sided finite end is not the upper root", l);
                 }
             } else {
-                l.count("wilson:one-sided-level<1/2 (finite end judged as 'a root')");
-                let (ok, d) = is_root(o.hi);
+                l.count("wilson:one-sided-level<1/2 (signed quantile: finite end is the opposite root)");
+                let (ok, _) = is_root(o.hi);
+                let d = (o.hi - rl).abs();
                 l.max("wilson_root_abs_err", d);
-                if !ok {
-                    report("one-sided finite end (level < 1/2) is not a root of the score equation", l);
+                if !ok || !(d <= tol) {
+                    report("one-sided finite end at a level below 1/2 is not the root on the side given by the signed quantile", l);
                 }
             }
         }
@@ -403,7 +407,7 @@ pub fn run(run: &Arc<Run>) {
         "wald:inadmissible-rejected",
         "front-end compared",
         "ratio front-end compared",
-        "wilson:one-sided-level<1/2 (finite end judged as 'a root')",
+        "wilson:one-sided-level<1/2 (signed quantile: finite end is the opposite root)",
         "sampled beyond exhaustive bound",
         "inadmissible (n,k) visited",
     ]);
